@@ -223,6 +223,8 @@ static struct HashTab *hashtab_copy(struct HashTab *h_old, unsigned newsize)
 	unsigned i;
 
 	h_new = hashtab_create(newsize, h_old->cmp_fn, h_old->ca);
+	if (!h_new)
+		return NULL;
 	for (; h_old; h_old = h_old->next) {
 		for (i = 0; i < h_old->size; i++) {
 			struct HashItem *s = &h_old->tab[i];
